@@ -470,7 +470,12 @@ def _lockstep(schedule, leg, res):
                     dt = xf(op["dt"])
                     out = pe.process_model(dt, st, cov, ctl) if U else pe.process_model(dt, st, cov)
                     lines.append(f"PREDICT {fx(dt)} {_sv_line(S, xof(st), cov.data)}{cvals}")
-                    expect.append(("predict", i, out, None))
+                    try:
+                        parts = ref.predict(dt, xof(st), np.array(cov.data, dtype=float), {u_: float(ctl.data[j, 0]) for j, u_ in enumerate(U)} if U else None)
+                        gain = float(np.linalg.norm(parts[2]["G"], 2)) ** 2 if parts is not None and parts[2]["G"].size else 1.0
+                    except Exception:  # noqa: BLE001
+                        gain = 1.0
+                    expect.append(("predict", i, out, {"P_in": np.array(cov.data, dtype=float), "gain": gain}))
                     st, cov = out
                     mf = None
                 elif op["op"] == "update":
@@ -482,7 +487,7 @@ def _lockstep(schedule, leg, res):
                     u = ref.update(key, x_in, P_in, {r: xf(op["values"][r]) for r in rn}, k)
                     lines.append(f"UPDATE {sensors.index(key)} {_sv_line(S, x_in, P_in)} " + " ".join(fx(xf(op["values"][r])) for r in rn))
                     unchanged = out[0].data.tobytes() == st.data.tobytes() and out[1].data.tobytes() == cov.data.tobytes()
-                    expect.append(("update", i, out, {"inn": np.array(pe.innovations[key]), "unchanged": unchanged, "u": u, "m": len(rn), "z": [xf(op["values"][r]) for r in rn], "pmax": float(np.max(np.abs(P_in))) if P_in.size else 0.0,
+                    expect.append(("update", i, out, {"inn": np.array(pe.innovations[key]), "unchanged": unchanged, "u": u, "m": len(rn), "P_in": P_in, "z": [xf(op["values"][r]) for r in rn], "pmax": float(np.max(np.abs(P_in))) if P_in.size else 0.0,
                                                       "xmax": (max(abs(v) for v in x_in.values()) + (float(np.max(np.abs(u["K"] @ u["inn"]))) if (u is not None and u["K"].size) else 0.0))}))
                     st, cov = out
                     mf = None
@@ -566,6 +571,7 @@ def _compare(schedule, expect, out_lines, res, n, S):
                 raise RuntimeError("driver output truncated")
             xs, Ps = _parse_sv(r, n)
             _cmp_sv(res, "C07", "predict", i, out, xs, Ps)
+            _cov_invariant_cpp(res, i, Ps, extra["P_in"], extra["gain"], "predict")
             res.stats["predict"] += 1
         elif kind == "update":
             acc = nxt("A")
@@ -614,6 +620,8 @@ def _compare(schedule, expect, out_lines, res, n, S):
             elif u is not None and k is None and cpp_unchanged and ((float(np.max(np.abs(u["KHP"]))) if u["KHP"].size else 0.0) > 1e-12):
                 res.add("C06", "disabled_discards_cpp", "C06:cpp:disabled_discards", i, "with filtering disabled no reading is discarded", "c++ estimate unchanged", "cpp")
             _cmp_sv(res, "C07", "update", i, out, xs, Ps, extra["pmax"], extra["xmax"])
+            if u is not None and u["K"].size:
+                _cov_invariant_cpp(res, i, Ps, extra["P_in"], float(np.linalg.norm(np.eye(n) - u["K"] @ u["H"], 2)), "update")
         else:
             # the P/S lines the recording subclass printed during this tick come before its R line
             calls = []
@@ -676,6 +684,23 @@ def _compare(schedule, expect, out_lines, res, n, S):
             res.add("C06", "decision_python_helper", f"C06:py:decision:remove_innovation:m={m}", 0, f"{'discard' if want else 'keep'}: z^T S^-1 z = {float(nv)!r} vs k*sqrt(2m)+m = {float(thr)!r}", f"remove_innovation returned {pydec}", "py")
         if int(dline[0]) != want:
             res.add("C06", "decision_helper", f"C06:cpp:decision:removeInnovation:m={m}", 0, f"{'discard' if want else 'keep'}: z^T S^-1 z = {float(nv)!r} vs k*sqrt(2m)+m = {float(thr)!r}", f"removeInnovation<{m}> returned {dline[0]}", "cpp")
+
+
+def _cov_invariant_cpp(res, i, P, P_in, gain, where):
+    """C09 on the GENERATED C++ filter (same per-step, inherit-aware rule as for the Python filter): the covariance a step
+    returns may carry on its input's asymmetry / negativity amplified by the step's gain, plus 1e-9 fresh rounding."""
+    if not P.size or not np.all(np.isfinite(P)):
+        return
+    sc = max(1.0, float(np.max(np.abs(P))), float(np.max(np.abs(P_in))))
+    a_in = float(np.max(np.abs(P_in - P_in.T)))
+    n_in = max(0.0, -reference.min_eig(P_in))
+    a = float(np.max(np.abs(P - P.T)))
+    neg = max(0.0, -reference.min_eig(P))
+    g = 8.0 * max(1.0, gain)
+    if a > g * a_in + 1e-9 * sc:
+        res.add("C09", "asymmetric", f"C09:cpp:asymmetric:{where}", i, f"generated C++ filter returns a covariance symmetric up to rounding (<= {g:.3g} x input asymmetry {a_in:.3g} + 1e-9 x {sc:.3g})", f"max|P-P^T| = {a:.3g}", "cpp")
+    if neg > g * (n_in + a_in) + 1e-9 * sc:
+        res.add("C09", "negative", f"C09:cpp:negative:{where}", i, f"generated C++ filter returns a PSD covariance up to rounding (-lambda_min <= {g:.3g} x input defect {n_in + a_in:.3g} + 1e-9 x {sc:.3g})", f"-lambda_min = {neg:.3g}", "cpp")
 
 
 def _check_steps(res, schedule, i, calls, extra, combo):
